@@ -364,7 +364,26 @@ def r07g(F):
 	"""reorganisation boundary shared with C06 / C11: claims tracking survives exactly the blocks that stay"""
 	return chainrules.reorg_boundary(F, '07.g')
 
+def r07j(F):
+	"""the height recorded for a claim is the height of the block that confirmed the commitment transaction: a claim recorded at any other
+	height is dropped (or kept) wrongly when blocks are disconnected. Same structural rules as 11.g (monitor part) and 06.h (iii),
+	re-labelled: losing a preimage / timeout claim after a reorg is a C07 violation too."""
+	import C11, C06
+	out = []
+	for r in C11.r11g(F):
+		if 'pending-spend' in r.key or 'height-reaches-claim-builder' in r.key:
+			r.rule = '07.j'
+			out.append(r)
+	for r in C06.r06h(F):
+		if 'claim-confirmation-height' in r.key or 'claim-build' in r.key:
+			r.rule = '07.j'
+			out.append(r)
+	if len(out) < 8:
+		out.append(Result('07.j', False, 'floor:claim-height-rules', 'only %d claim-height rule instances (expected >= 8)' % len(out), len(out)))
+	return out
+
 RULES = [
+	('07.j', 'claims are recorded at the confirmation height of the commitment transaction (pending funding spend, all claim builders)', r07j),
 	('07.a', 'claim transactions are broadcast only by the OnchainTxHandler claim routines, from generate_claim', r07a),
 	('07.b', 'feerate_bump never lowers the feerate; RBF increment; no sub-dust output; bump iff a previous feerate exists', r07b),
 	('07.c', 'package locktime: signed locktime or max(height, input minimum); future-locktime requests are deferred', r07c),
